@@ -10,6 +10,7 @@ import (
 	"net"
 	"net/http"
 	"strings"
+	"sync"
 	"time"
 )
 
@@ -171,12 +172,15 @@ func parse(r *Resp) {
 	}
 }
 
-// Stream is an incremental client for streaming checks: it exposes what has arrived so far.
+// Stream is an incremental client for streaming checks: a reader goroutine accumulates what arrives;
+// WaitFor / WaitEnd may be called from any goroutine.
 type Stream struct {
 	c    net.Conn
+	mu   sync.Mutex
 	buf  bytes.Buffer
 	Err  error
-	Done bool
+	done bool
+	wake chan struct{}
 	t0   time.Time
 }
 
@@ -185,60 +189,82 @@ func OpenStream(addr string, q *Req) (*Stream, error) {
 	if err != nil {
 		return nil, err
 	}
-	s := &Stream{c: c, t0: time.Now()}
+	s := &Stream{c: c, t0: time.Now(), wake: make(chan struct{}, 1)}
 	if _, err := c.Write(q.bytes(addr)); err != nil {
 		c.Close()
 		return nil, err
 	}
+	go func() {
+		tmp := make([]byte, 64<<10)
+		for {
+			n, err := c.Read(tmp)
+			s.mu.Lock()
+			s.buf.Write(tmp[:n])
+			if err != nil {
+				s.done = true
+				s.Err = err
+			}
+			s.mu.Unlock()
+			select {
+			case s.wake <- struct{}{}:
+			default:
+			}
+			if err != nil {
+				return
+			}
+		}
+	}()
 	return s, nil
 }
 
-// WaitFor reads until the accumulated raw response contains sub, the connection ends, or the
-// timeout expires. Returns true if sub was seen.
-func (s *Stream) WaitFor(sub string, timeout time.Duration) bool {
+func (s *Stream) poll(timeout time.Duration, cond func() bool) bool {
 	deadline := time.Now().Add(timeout)
-	tmp := make([]byte, 64<<10)
 	for {
-		if bytes.Contains(s.buf.Bytes(), []byte(sub)) {
+		s.mu.Lock()
+		ok := cond()
+		s.mu.Unlock()
+		if ok {
 			return true
 		}
-		if s.Done {
+		left := time.Until(deadline)
+		if left <= 0 {
 			return false
 		}
-		s.c.SetReadDeadline(deadline)
-		n, err := s.c.Read(tmp)
-		s.buf.Write(tmp[:n])
-		if err != nil {
-			if ne, ok := err.(net.Error); ok && ne.Timeout() {
-				return bytes.Contains(s.buf.Bytes(), []byte(sub))
-			}
-			s.Done = true
-			s.Err = err
+		if left > 2*time.Millisecond {
+			left = 2 * time.Millisecond
+		}
+		select {
+		case <-s.wake:
+		case <-time.After(left):
 		}
 	}
 }
 
-// WaitEnd reads until the connection ends or the timeout expires; returns true if it ended.
+// WaitFor waits until the accumulated raw response contains sub (true) or the connection ends / the
+// timeout expires without it (false).
+func (s *Stream) WaitFor(sub string, timeout time.Duration) bool {
+	found := false
+	s.poll(timeout, func() bool {
+		if bytes.Contains(s.buf.Bytes(), []byte(sub)) {
+			found = true
+			return true
+		}
+		return s.done
+	})
+	return found
+}
+
+// WaitEnd waits until the connection has ended (true) or the timeout expires (false).
 func (s *Stream) WaitEnd(timeout time.Duration) bool {
-	deadline := time.Now().Add(timeout)
-	tmp := make([]byte, 64<<10)
-	for !s.Done {
-		s.c.SetReadDeadline(deadline)
-		n, err := s.c.Read(tmp)
-		s.buf.Write(tmp[:n])
-		if err != nil {
-			if ne, ok := err.(net.Error); ok && ne.Timeout() {
-				return false
-			}
-			s.Done = true
-			s.Err = err
-		}
-	}
-	return true
+	return s.poll(timeout, func() bool { return s.done })
 }
 
-func (s *Stream) Raw() []byte { return s.buf.Bytes() }
-func (s *Stream) Close()      { s.c.Close() }
+func (s *Stream) Raw() []byte {
+	s.mu.Lock()
+	defer s.mu.Unlock()
+	return append([]byte{}, s.buf.Bytes()...)
+}
+func (s *Stream) Close() { s.c.Close() }
 
 // Abort closes the client connection abruptly (RST).
 func (s *Stream) Abort() {
@@ -249,7 +275,7 @@ func (s *Stream) Abort() {
 }
 
 func (s *Stream) Resp() *Resp {
-	r := &Resp{Raw: s.buf.Bytes(), Header: http.Header{}}
+	r := &Resp{Raw: s.Raw(), Header: http.Header{}}
 	parse(r)
 	return r
 }
